@@ -141,6 +141,23 @@ class Values:
 PRIM = {"i16": "<h", "u16": "<H", "i32": "<i", "u32": "<I", "f32": "<f", "f64": "<d"}
 
 
+class ExoticValues(Values):
+    """float32 samples that are not ordinary numbers: +-inf and isolated NaN components.  What the
+    library makes of such a frame (present or missing) is not fixed by any property, only that the
+    size it reports is the size it writes - so these values are used for size checks alone."""
+
+    def flt(self, ty, vid):
+        if ty == "f32":
+            m = (vid + self.r) % 5
+            if m == 0:
+                return np.float32(np.inf)
+            if m == 1:
+                return np.float32(np.nan)
+            if m == 2:
+                return np.float32(-np.inf)
+        return Values.flt(self, ty, vid)
+
+
 def pack_prim(ty, value):
     if ty in ("f32", "f64"):
         return (np.float32(value) if ty == "f32" else np.float64(value)).tobytes()
